@@ -4,9 +4,17 @@ UNITS = [dict(
     name='future', harness='harness/c10_future.cpp', sources=SRC, native=False,
     defines={'quick': {'VF_CJOBS': 1}, 'thorough': {'VF_CJOBS': 2}},
     entries=['queue', 'future_one', 'future_heap', 'future_two', 'backpressure'],
-    opts={'quick': {'unwind': 64, 'max_instr': 400000, 'preempt': 1, 'ignore_unfinished_threads': True, 'check_leaks': False}, 'thorough': {'unwind': 64, 'max_instr': 400000, 'preempt': 2, 'ignore_unfinished_threads': True, 'check_leaks': False}},
+    opts={'quick': {'unwind': 64, 'max_instr': 400000, 'preempt': 1, 'ignore_unfinished_threads': True, 'check_leaks': False}, 'thorough': {'unwind': 64, 'max_instr': 400000, 'preempt': 1, 'ignore_unfinished_threads': True, 'check_leaks': False}},
     split={'quick': 14, 'thorough': 16},
     budget={'quick': 285, 'thorough': 3300},
+    validate=[],
+), dict(
+    name='future_deep', harness='harness/c10_future.cpp', sources=SRC, native=False, tiers=('thorough',),
+    defines={'thorough': {'VF_CJOBS': 1}},
+    entries=['queue', 'future_one', 'future_heap'],
+    opts={'thorough': {'unwind': 64, 'max_instr': 400000, 'preempt': 2, 'ignore_unfinished_threads': True, 'check_leaks': False}},
+    split={'thorough': 16},
+    budget={'thorough': 1500},
     validate=[],
 ), dict(
     name='pool_shrink', harness='harness/c10_future.cpp', sources=SRC, native=False,
@@ -19,7 +27,7 @@ UNITS = [dict(
 )]
 BOUNDS = {
     'quick': 'LockFreeQueue<int> of capacity 2 with 2 producers x 2 pushes and 1 consumer x 2 pops + drain; one Future<int> started, converted, restarted and joined on the real lazily created pool; two futures from main (one optionally aborted) plus one from a second client thread; ThreadPool(0,3,capacity 1..2) with 2 client threads x 2 jobs (full queue back-pressure, worker start, worker sleep/wake, pool destruction); every interleaving with <= 1 preemption (thorough: 2) at atomic/volatile accesses and pthread calls, blocking and yielding switches free; pool sizing: three blocking calls grow ThreadPool(0,3,8) to three workers, then 4 single calls each arrive after an idle period of 3 s on the model clock (workers retire), every call must still be executed - every choice of the thread that runs next at blocking/yielding points, no preemption',
-    'thorough': '<= 2 preemptions; pool sizing with 6 idle rounds',
+    'thorough': 'two jobs per pool client with <= 1 preemption; queue / one future / heap future with <= 2 preemptions (two futures and back-pressure with 2 preemptions were measured: no verdict within 55 min, 70 million schedules, no violation - not registered); pool sizing with 6 idle rounds',
 }
 OUTSIDE = 'more than ~4 threads, preemptions beyond the bound, preemptions inside the pool-sizing scenario (its interleavings are limited to the choice of the next thread at blocking points), real elapsed time (Time::ticks reads a model clock that the harness advances explicitly), Thread::start failure, weak memory'
 ASSUMPTIONS = ['real src/Future.cpp (included by the harness TU), include/nstd/Future.hpp, Call.hpp, src/Signal.cpp, Thread.cpp, Mutex.cpp on the pthread model; System::getProcessorCount() -> 2 (pool maximum 3)',
